@@ -63,6 +63,15 @@ class Obs:
             self.sink.append((self.label, 'err', f))
 
 
+def serial_start(ds, sim):
+    """where a simulated process's serial counter stands: anywhere, now and then a few messages
+    before the 2^32 wrap-around"""
+    if ds.flag(0.03):
+        sim.probe('process-about-to-wrap-its-serials')
+        return 2**32 - 1 - ds.choose(12)
+    return 1 + ds.choose(2**32 - 10**6)
+
+
 class ClientRig:
     """real DBusClientConnection <-> scripted daemon (WirePeer)"""
 
@@ -72,7 +81,7 @@ class ClientRig:
         self.ctx = ctx
         self.sim = sim
         if serial_start is None:
-            serial_start = 1 + ctx.ds.choose(2**32 - 10**6)
+            serial_start = globals()['serial_start'](ctx.ds, sim)
         # node: another connection of a process that already exists (shares its globals)
         self.node = node or Node(name, serial_start=serial_start,
                                  known=dict(__import__('simdbus.seams', fromlist=['x']).KNOWN_AT_IMPORT))
@@ -239,7 +248,7 @@ class BusRig:
         ctx.seams.home()
         ctx.seams.set_linux(bool(creds))
         self.creds = creds
-        self.node = Node('bus', serial_start=1 + ds.choose(2**31), known=dict(KNOWN_AT_IMPORT))
+        self.node = Node('bus', serial_start=serial_start(ds, ctx.sim), known=dict(KNOWN_AT_IMPORT))
         self.bus = self.sim.call(self.node, t_bus.Bus)
         self.factory = BusFactory(self.bus)
         self.clients = []        # dicts
@@ -298,7 +307,7 @@ class BusRig:
         ds = self.ctx.ds
         self.n += 1
         name = 'c%d' % self.n
-        node = Node(name, serial_start=1 + ds.choose(2**32 - 10**6), known=dict(KNOWN_AT_IMPORT))
+        node = Node(name, serial_start=serial_start(ds, self.sim), known=dict(KNOWN_AT_IMPORT))
         factory = t_client.DBusClientFactory()
         obs = Obs(self.sim, name + '.connect').watch(factory.getConnection())
         proto = self.sim.call(node, factory.buildProtocol, None)
